@@ -319,8 +319,8 @@ def run_c02(ctx):
         cachelayers.run_layers(ctx, layer_items)
     if (ctx.replay_only is not None and not ctx.replay_only) or os.environ.get("VERIF_C02_ONLY") == "layers":   # (development knob)
         return
-    common(ctx, "C02", [dict(cache=True, compress=False), dict(cache=True, compress=True, sample=100 if ctx.quick else 3000),
-                        dict(cache=True, cmdcache=True, prefer_dirs=True, sample=60 if ctx.quick else 1500)], cfgs, quick_n=40)
+    common(ctx, "C02", [dict(cache=True, compress=False), dict(cache=True, compress=True, sample=100 if ctx.quick else 1500),
+                        dict(cache=True, cmdcache=True, prefer_dirs=True, sample=60 if ctx.quick else 800)], cfgs, quick_n=40)
 
 
 CLAIM03 = dict(
